@@ -85,4 +85,19 @@ SpecView(k) ==
 SandboxKinds == {"none", "same", "other"}
 States == {"create", "delete", "update", "pause", "resume"}
 SandboxID(k, id) == CASE k = "none" -> "" [] k = "same" -> id [] k = "other" -> "sb-1"
+
+\* ------------------------------------------------- skel.Run as a program --
+\* the arguments after the program name, what is on standard input, what the plugin's Invoke does
+SkelArgs == {<<>>, <<"invoke">>, <<"bogus">>, <<"invoke", "more">>, <<"">>}
+SkelStdin == {"request", "garbage", "empty"}
+SkelBeh == {"ok", "error", "result-error"}
+\* exit status (zero or not) and what is on standard output: nothing, a result, a result carrying an error
+\* (a request that cannot be read is the only failure of the program itself; anything but "invoke" is answered
+\*  with an error result - including no argument at all, which the code answers with a Go panic: finding)
+SkelOutcome(args, stdin, beh) ==
+  IF stdin # "request" THEN [zero |-> FALSE, out |-> "none"]
+  ELSE IF Len(args) > 0 /\ args[1] = "invoke" THEN [zero |-> TRUE, out |-> IF beh = "ok" THEN "result" ELSE "error-result"]
+  ELSE [zero |-> TRUE, out |-> "error-result"]
+\* whatever happens, a plugin that exits with status zero has printed a result
+SkelAnswers == \A a \in SkelArgs, i \in SkelStdin, b \in SkelBeh : SkelOutcome(a, i, b).zero => SkelOutcome(a, i, b).out # "none"
 =============================================================================
